@@ -38,6 +38,10 @@ pub fn cstr(v: &mut Vec<u8>, s: &str) {
 #[derive(Default, Clone)]
 pub struct Framer {
     pub buf: Vec<u8>,
+    /// Validate headers the way PostgreSQL's SocketBackend does as soon as they arrive:
+    /// unknown frontend message types and lengths outside the per-type limit end the session
+    /// without waiting for the declared number of bytes.
+    pub pg_frontend_rules: bool,
 }
 
 impl Framer {
@@ -46,6 +50,26 @@ impl Framer {
     }
     /// Next complete message, if any. Err on an impossible length.
     pub fn next(&mut self) -> Result<Option<Msg>, String> {
+        if self.buf.is_empty() {
+            return Ok(None);
+        }
+        if self.pg_frontend_rules && self.buf.is_empty() {
+            return Ok(None);
+        }
+        if self.pg_frontend_rules {
+            let large = matches!(self.buf[0], b'Q' | b'F' | b'B' | b'P' | b'd');
+            let small = matches!(self.buf[0], b'X' | b'C' | b'D' | b'E' | b'H' | b'S' | b'c' | b'f' | b'p');
+            if !large && !small {
+                return Err(format!("invalid frontend message type {}", self.buf[0]));
+            }
+            if self.buf.len() >= 5 {
+                let len = i32::from_be_bytes([self.buf[1], self.buf[2], self.buf[3], self.buf[4]]);
+                let max = if large { 0x3fff_ffff } else { 10000 };
+                if len < 4 || len > max {
+                    return Err(format!("invalid message length {} for type {:?}", len, self.buf[0] as char));
+                }
+            }
+        }
         if self.buf.len() < 5 {
             return Ok(None);
         }
@@ -338,7 +362,16 @@ pub fn error_response(severity: &str, code: &str, message: &str) -> Msg {
     b.push(b'C');
     cstr(&mut b, code);
     b.push(b'M');
-    cstr(&mut b, message);
+    // U+0001 in a message text stands for bytes that are not UTF-8 (a server whose messages or
+    // echoed statement text are in another encoding)
+    for x in message.bytes() {
+        if x == 1 {
+            b.extend_from_slice(&[0xc3, 0x28, 0xff]);
+        } else {
+            b.push(x);
+        }
+    }
+    b.push(0);
     b.push(0);
     Msg::new(b'E', b)
 }
